@@ -7,6 +7,8 @@ import (
 	"crypto/sha256"
 	"errors"
 	"fmt"
+	"math"
+	"math/bits"
 	prand "math/rand"
 	"sync"
 	"sync/atomic"
@@ -73,10 +75,31 @@ const (
 //
 // TODO(roasbeef): also add in current available channel bandwidth, inverse
 // func
+//
+// NOTE: The product of amount and fee rate may exceed 64 bits, so it is
+// computed with 128 bits. A fee that is too large to be used in the signed fee
+// arithmetic of the link saturates at math.MaxInt64, an amount that no HTLC is
+// able to pay.
 func ExpectedFee(f models.ForwardingPolicy,
 	htlcAmt lnwire.MilliSatoshi) lnwire.MilliSatoshi {
 
-	return f.BaseFee + (htlcAmt*f.FeeRate)/1000000
+	const (
+		feeRateParts = 1000000
+		maxFee       = uint64(math.MaxInt64)
+	)
+
+	hi, lo := bits.Mul64(uint64(htlcAmt), uint64(f.FeeRate))
+	if hi >= feeRateParts {
+		return lnwire.MilliSatoshi(maxFee)
+	}
+	propFee, _ := bits.Div64(hi, lo, feeRateParts)
+
+	fee, carry := bits.Add64(uint64(f.BaseFee), propFee, 0)
+	if carry != 0 || fee > maxFee {
+		return lnwire.MilliSatoshi(maxFee)
+	}
+
+	return lnwire.MilliSatoshi(fee)
 }
 
 // ChannelLinkConfig defines the configuration for the channel link. ALL
@@ -2533,7 +2556,12 @@ func (l *channelLink) CheckHtlcForward(payHash [32]byte, incomingHtlcAmt,
 	// rounding may cause the result to be slightly higher than in the case
 	// of separately rounded fee components. This potentially causes failed
 	// forwards for senders and is something to be avoided.
-	expectedFee := inFee + int64(outFee)
+	//
+	// NOTE: The outgoing fee may be saturated, in which case the sum of
+	// both components isn't necessarily representable. The check below
+	// therefore compares the actual fee less the outgoing fee with the
+	// inbound fee, which is equivalent and can't overflow for an incoming
+	// amount that covers the outgoing amount.
 
 	// If the actual fee is less than our expected fee, then we'll reject
 	// this HTLC as it didn't provide a sufficient amount of fees, or the
@@ -2541,11 +2569,11 @@ func (l *channelLink) CheckHtlcForward(payHash [32]byte, incomingHtlcAmt,
 	// information to construct the forwarding information for this hop. In
 	// any case, we'll cancel this HTLC.
 	actualFee := int64(incomingHtlcAmt) - int64(amtToForward)
-	if incomingHtlcAmt < amtToForward || actualFee < expectedFee {
+	if incomingHtlcAmt < amtToForward || actualFee-int64(outFee) < inFee {
 		l.log.Warnf("outgoing htlc(%x) has insufficient fee: "+
-			"expected %v, got %v: incoming=%v, outgoing=%v, "+
-			"inboundFee=%v",
-			payHash[:], expectedFee, actualFee,
+			"expected %v (outgoing) + %v (inbound), got %v: "+
+			"incoming=%v, outgoing=%v, inboundFee=%v",
+			payHash[:], outFee, inFee, actualFee,
 			incomingHtlcAmt, amtToForward, inboundFee,
 		)
 
